@@ -122,6 +122,9 @@ func (f *FuncCtx) coerce(v Val, t types.Type) Val {
 	if f.S.bv && isInteger(t) && isInteger(v.Typ) && intWidth(t) != intWidth(v.Typ) && v.lit() {
 		return v
 	}
+	if _, isTP := types.Unalias(t).(*types.TypeParam); isTP {
+		return v // generic parameter: the value keeps its instantiated type
+	}
 	// implicit conversion to interface
 	if _, isIface := t.Underlying().(*types.Interface); isIface {
 		if _, srcIface := v.Typ.Underlying().(*types.Interface); !srcIface {
